@@ -79,6 +79,17 @@ type LOp struct {
 
 	SvcReply string `json:"svc_reply,omitempty"` // svc add: how the service script answers ListenerStart: ok | error | silent
 	Stale    bool   `json:"stale,omitempty"`     // edit: the dialog was opened while the name was an HTTP listener (Protocol "Http" whatever it is now)
+
+	// op "sched" (d_test.go): a small schedule of 2-4 operator requests around the running
+	// HTTP listener Name, fired from separate goroutines at generated offsets while earlier
+	// ones are still being served (Conns/NConns: connections held open across the whole schedule)
+	Sched []SStep `json:"sched,omitempty"`
+}
+
+// SStep is one request of a schedule.
+type SStep struct {
+	At  string `json:"at"`  // when it is fired, counted from the moment the previous request is parked (inside (*HTTP).Stop()) or answered: 0 | 50ms | 300ms | 1s | after-first-removal (as soon as the schedule's first removal has been answered)
+	Req LOp    `json:"req"` // remove | add | edit
 }
 
 type CaseA struct {
@@ -352,6 +363,10 @@ type worldA struct {
 	busy    net.Listener
 	busyP   string
 	agentID uint32
+
+	// ports: every port the history handed to an HTTP add or the kernel chose for one (the
+	// harness's own busy port excluded)
+	ports map[string]bool
 }
 
 func (w *worldA) post(e *ent, p probe) (int, error) {
@@ -564,6 +579,43 @@ func (w *worldA) invariants(after string) *core.Violation {
 	if r != a {
 		return core.V("listener|views|running!=advertised|after-"+after, "after %s: running built-in listeners {%s} but a newly connected operator is shown {%s}", after, r, a)
 	}
+	return w.unlistedServers(after)
+}
+
+// unlistedServers: the running set is what actually accepts connections.  Every port the
+// history handed to an HTTP add (or that the kernel chose for one) on which the teamserver
+// process accepts connections must belong to an HTTP listener that is (still) in
+// ts.Listeners - a server that accepts connections while no listed listener owns its port
+// is a leftover.  (A listed listener with an empty PortBind owns whatever port the kernel
+// gave it.  /proc is only consulted when a connect to an unowned port succeeds: the port
+// may have been taken by another process in the meantime.)
+func (w *worldA) unlistedServers(after string) *core.Violation {
+	if len(w.ports) == 0 {
+		return nil
+	}
+	owned := map[string]bool{}
+	var listed []string
+	for _, l := range w.fx.TS.Listeners {
+		if h, ok := l.Config.(*handlers.HTTP); ok {
+			listed = append(listed, fmt.Sprintf("%s:%s", l.Name, h.Config.PortBind))
+			if h.Config.PortBind == "" || h.Config.PortBind == "0" {
+				return nil
+			}
+			owned[h.Config.PortBind] = true
+		}
+	}
+	var ports []string
+	for p := range w.ports {
+		if !owned[p] {
+			ports = append(ports, p)
+		}
+	}
+	sort.Strings(ports)
+	for _, p := range ports {
+		if !svcx.Refuses(p) && svcx.OwnListening(p) {
+			return core.V("listener|running|accepting-without-listed-listener|after-"+after, "after %s: the teamserver accepts TCP connections on port %s, but no listener in ts.Listeners is bound to that port (listed HTTP listeners name:port %v): a server is running that is neither listed, persisted nor advertised", after, p, listed)
+		}
+	}
 	return nil
 }
 
@@ -662,6 +714,16 @@ func skip(what string, err error) *core.Violation {
 	return nil
 }
 
+// noteSched counts what schedules actually met at run time (evidence only).
+var schedSeen = map[string]int{}
+
+func noteSched(what string) {
+	skipMu.Lock()
+	schedSeen[what]++
+	core.SetExtra("schedule_windows_observed", fmt.Sprint(schedSeen))
+	skipMu.Unlock()
+}
+
 func checkA(c CaseA) *core.Violation {
 	fx, err := svcx.New(true)
 	if err != nil {
@@ -688,6 +750,7 @@ func checkA(c CaseA) *core.Violation {
 	}
 	defer w.busy.Close()
 	_, w.busyP, _ = net.SplitHostPort(w.busy.Addr().String())
+	w.ports = map[string]bool{}
 
 	model := map[string]*ent{}
 	if v := w.invariants("setup"); v != nil {
@@ -782,6 +845,9 @@ func checkA(c CaseA) *core.Violation {
 				}
 			}
 			a.info = httpInfo(op.Name, a.port, a.cfg, op)
+			if a.port != "" && a.port != w.busyP {
+				w.ports[a.port] = true
+			}
 		case "smb":
 			a.info["PipeName"] = "pipe_" + op.Name
 		case "ext":
@@ -874,6 +940,7 @@ func checkA(c CaseA) *core.Violation {
 					}
 					if len(fresh) == 1 {
 						e.port = fresh[0]
+						w.ports[e.port] = true
 					}
 				}
 				if e.kind != op.Kind {
@@ -904,10 +971,309 @@ func checkA(c CaseA) *core.Violation {
 		return nil
 	}
 
+	// ---- a schedule: 2-4 operator requests around one running HTTP listener, each fired from
+	// its own goroutine (as a handleRequest of its own would) at its offset while earlier ones
+	// are still being served.  Requests are STARTED one after the other (the next one only when
+	// the previous one is parked inside (*HTTP).Stop() or answered and the teamserver is at
+	// rest), two removals wake up at least 300 ms apart and nothing is fired within 250 ms
+	// before a removal wakes up: no two goroutines are ever inside the unsynchronised listener
+	// code at the same instant, so the outcome on HEAD is determined by the order alone: a
+	// removal acts on the listener that carries the name WHEN THE REQUEST ARRIVES.
+	type incarnation struct {
+		name     string
+		l        *server.Listener
+		e        *ent
+		born     int  // step that created it (-1: before the schedule)
+		targeted bool // a removal arrived while it carried its name
+	}
+	type pending struct {
+		what     string
+		name     string
+		step     int
+		done     chan *core.Violation
+		fired    time.Time
+		returned bool
+		v        *core.Violation
+	}
+	const stopFrame = "handlers.(*HTTP).Stop("
+	runSchedule := func(i int, op LOp, me *ent) *core.Violation {
+		steps := op.Sched
+		if len(steps) > 4 {
+			steps = steps[:4]
+		}
+		known := map[*server.Listener]*incarnation{}
+		var incs []*incarnation
+		for _, l := range ts.Listeners {
+			if e := model[l.Name]; e != nil {
+				inc := &incarnation{name: l.Name, l: l, e: e, born: -1}
+				known[l] = inc
+				incs = append(incs, inc)
+			}
+		}
+		var held []net.Conn
+		closeHeld := func() {
+			for _, c := range held {
+				c.Close()
+			}
+			held = nil
+		}
+		defer closeHeld()
+		if op.Conns != "" {
+			n := op.NConns
+			if n < 1 || n > 4 {
+				n = 1
+			}
+			var herr error
+			if held, herr = w.holdOpen(me, op.Conns, n); herr != nil {
+				return core.V("listener|remove|http|not-serving-before-removal", "step %d: cannot open a %s connection to the running listener %q on port %s: %v", i, op.Conns, op.Name, me.port, herr)
+			}
+		}
+		var (
+			pend     []*pending
+			firstRm  *pending
+			stuck    bool
+			vFirst   *core.Violation
+			staleRet bool // a removal was answered after a listener it did not target had been given its name
+		)
+		wait := func(p *pending) {
+			if p.returned {
+				return
+			}
+			select {
+			case p.v = <-p.done:
+				p.returned = true
+				if vFirst == nil {
+					vFirst = p.v
+				}
+			case <-time.After(svcx.Bound):
+				stuck = true
+			}
+		}
+		poll := func(p *pending) bool {
+			if !p.returned {
+				select {
+				case p.v = <-p.done:
+					p.returned = true
+					if vFirst == nil {
+						vFirst = p.v
+					}
+				default:
+				}
+			}
+			return p.returned
+		}
+		for k, st := range steps {
+			rq := st.Req
+			if rq.Name == "" {
+				rq.Name = op.Name
+			}
+			if k > 0 {
+				switch st.At {
+				case "after-first-removal":
+					if firstRm != nil {
+						wait(firstRm)
+					}
+				case "50ms":
+					time.Sleep(50 * time.Millisecond)
+				case "300ms":
+					time.Sleep(300 * time.Millisecond)
+				case "1s":
+					time.Sleep(time.Second)
+				}
+			}
+			for _, p := range pend {
+				if poll(p) || p.what != "remove" {
+					continue
+				}
+				if d := 300*time.Millisecond - time.Since(p.fired); rq.Op == "remove" && d > 0 {
+					time.Sleep(d)
+				}
+				if time.Until(p.fired.Add(5*time.Second)) < 250*time.Millisecond {
+					wait(p)
+				}
+			}
+			if stuck || vFirst != nil || !svcx.Quiesce() {
+				break
+			}
+			cur := find(ts, rq.Name)
+			switch rq.Op {
+			case "remove":
+				for _, l := range cur {
+					if inc := known[l]; inc != nil {
+						inc.targeted = true
+					}
+				}
+				what := "remove"
+				for _, p := range pend {
+					if p.what == "remove" && !p.returned {
+						what = "remove-during-removal"
+					}
+				}
+				p := &pending{what: "remove", name: rq.Name, step: k, done: make(chan *core.Violation, 1), fired: time.Now()}
+				n0 := svcx.CountGoroutines(stopFrame)
+				go func() { p.done <- w.operate(what, packager.Type.Listener.Remove, map[string]string{"Name": rq.Name}) }()
+				for dl := time.Now().Add(svcx.Bound); !poll(p) && svcx.CountGoroutines(stopFrame) <= n0 && time.Now().Before(dl); {
+					time.Sleep(500 * time.Microsecond)
+				}
+				pend = append(pend, p)
+				if firstRm == nil {
+					firstRm = p
+				}
+			case "add":
+				if rq.Kind == "svc" {
+					continue // the answer of the service script would have to be awaited: not part of schedules
+				}
+				a, ok := addPrep(rq, me.port)
+				if !ok {
+					return nil
+				}
+				if v := addSend(a); v != nil && vFirst == nil {
+					vFirst = v
+					break
+				}
+				if !svcx.Quiesce() {
+					stuck = true
+					break
+				}
+				if st.At == "after-first-removal" && firstRm != nil {
+					if svcx.CountGoroutines(stopFrame) > 0 {
+						noteSched("add-answered-after-first-removal-while-another-removal-still-waits")
+					} else {
+						noteSched("add-answered-after-first-removal-no-other-removal-waiting")
+					}
+				}
+				for _, l := range find(ts, rq.Name) {
+					if known[l] != nil {
+						continue
+					}
+					e := &ent{kind: kindOfListener(l), port: a.port, cfg: a.cfg, secure: rq.Kind == "http" && rq.Secure, op: rq}
+					if x, ok := l.Config.(*handlers.External); ok {
+						e.ep = x.Config.Endpoint
+					}
+					if h, ok := l.Config.(*handlers.HTTP); ok {
+						e.active = h.Active
+						if a.port == "" {
+							e.port = "" // kernel-chosen: not probed
+						}
+					}
+					inc := &incarnation{name: rq.Name, l: l, e: e, born: k}
+					known[l] = inc
+					incs = append(incs, inc)
+					for _, p := range pend {
+						if p.what == "remove" && p.name == rq.Name && !poll(p) {
+							staleRet = true
+						}
+					}
+				}
+			case "edit":
+				cfg := httpCfg{UA: rq.UA, Uris: rq.Uris, Headers: rq.Headers}
+				// the Edit dialog was opened on the listener the schedule began with
+				if v := w.operate("edit", packager.Type.Listener.Edit, httpInfo(rq.Name, me.port, cfg, me.op)); v != nil && vFirst == nil {
+					vFirst = v
+					break
+				}
+				if !svcx.Quiesce() {
+					stuck = true
+					break
+				}
+				if len(cur) == 1 && known[cur[0]] != nil && known[cur[0]].e.kind == "http" {
+					known[cur[0]].e.cfg = cfg
+				}
+			}
+		}
+		for _, p := range pend {
+			wait(p)
+		}
+		quiet := svcx.Quiesce()
+		closeHeld()
+		if vFirst != nil {
+			return vFirst
+		}
+		if stuck || !quiet || !svcx.Quiesce() {
+			return inconclusive("a request of the schedule at step %d was not answered / teamserver goroutines did not come to rest", i)
+		}
+
+		label := "schedule"
+		if staleRet {
+			label = "schedule-removal-answered-after-name-was-given-to-a-new-listener"
+		}
+		// the three views and the accepting sockets agree
+		if v := w.invariants(label); v != nil {
+			return v
+		}
+		listed := map[*server.Listener]bool{}
+		for _, l := range ts.Listeners {
+			listed[l] = true
+		}
+		touched := map[string]bool{}
+		for _, inc := range incs {
+			touched[inc.name] = true
+			switch {
+			case inc.targeted && listed[inc.l]:
+				return core.V("listener|remove|still-listed|"+label, "step %d: %s: a Remove request for %q arrived while this %s listener carried the name, all requests have been answered, and ts.Listeners still holds it", i, label, inc.name, inc.e.kind)
+			case !inc.targeted && !listed[inc.l]:
+				return core.V("listener|schedule|listener-gone-without-a-removal-request", "step %d: %s: the %s listener %q (created by request %d of the schedule; -1 = before it) is gone from ts.Listeners although no Remove request arrived while it carried the name", i, label, inc.e.kind, inc.name, inc.born)
+			}
+		}
+		for n := range touched {
+			delete(model, n)
+		}
+		for _, inc := range incs {
+			if listed[inc.l] {
+				if h, ok := inc.l.Config.(*handlers.HTTP); ok {
+					inc.e.active = h.Active
+				}
+				model[inc.name] = inc.e
+			}
+		}
+		if v := modelCheck(label); v != nil {
+			return v
+		}
+		for _, inc := range incs {
+			e := inc.e
+			if e.kind != "http" || e.port == "" {
+				continue
+			}
+			if !listed[inc.l] {
+				reused := false
+				for _, o := range incs {
+					reused = reused || (listed[o.l] && o.e.kind == "http" && o.e.port == e.port)
+				}
+				if !e.active {
+					continue // never served
+				}
+				if !reused && !svcx.Refuses(e.port) && svcx.OwnListening(e.port) {
+					return core.V("listener|remove|http|still-accepting", "step %d: %s: removed HTTP listener %q still accepts TCP connections on port %s", i, label, inc.name, e.port)
+				}
+				continue
+			}
+			if !e.active {
+				continue
+			}
+			code, err := w.post(e, probeFor(e.cfg))
+			if err != nil {
+				return core.V("listener|schedule|http|survivor-not-serving", "step %d: %s: listener %q is listed and reports Active on port %s but a request fails: %v", i, label, inc.name, e.port, err)
+			}
+			if code != 200 {
+				return core.V("listener|schedule|http|own-request-refused", "step %d: %s: listener %q answers %d to a request carrying its own (last edited) user agent/URI/headers %+v", i, label, inc.name, code, e.cfg)
+			}
+		}
+		return nil
+	}
+
 	for i, op := range c.Ops {
 		me := model[op.Name]
 		before := find(ts, op.Name)
 		switch op.Op {
+
+		case "sched":
+			if me == nil || me.kind != "http" || !me.active || me.port == "" || len(before) != 1 || len(op.Sched) == 0 {
+				skip("schedule-without-a-running-http-listener", nil)
+				continue
+			}
+			if v := runSchedule(i, op, me); v != nil {
+				return v
+			}
 
 		case "add":
 			a, ok := addPrep(op, "")
@@ -1139,11 +1505,39 @@ func classifyA(c CaseA) core.Class {
 	var cl core.Class
 	pred := map[string]string{}
 	dup, unknown, failed, httpRm, stale, unusual, inflight, overlap, related, sharedEp := 0, 0, 0, 0, 0, 0, 0, 0, 0, 0
+	sched := ""
 	predEp := map[string]string{}
 	kinds := map[string]bool{}
 	for _, op := range c.Ops {
 		k, present := pred[op.Name]
 		switch op.Op {
+		case "sched":
+			if !present || k != "http" || len(op.Sched) == 0 {
+				cl.Labels = append(cl.Labels, "schedule:not-run(no-running-http-listener-of-that-name)")
+				break
+			}
+			labels, shape := classifySchedule(c.Base, op)
+			cl.Labels = append(cl.Labels, labels...)
+			sched = shape
+			// rough effect on the prediction (labels only): the requests in their order
+			for _, st := range op.Sched {
+				n := st.Req.Name
+				if n == "" {
+					n = op.Name
+				}
+				switch st.Req.Op {
+				case "remove":
+					if pred[n] == "http" {
+						httpRm++
+					}
+					delete(pred, n)
+					delete(predEp, n)
+				case "add":
+					if _, ok := pred[n]; !ok {
+						pred[n] = st.Req.Kind
+					}
+				}
+			}
 		case "add":
 			cl.Labels = append(cl.Labels, "add:"+op.Kind)
 			kinds[op.Kind] = true
@@ -1253,7 +1647,7 @@ func classifyA(c CaseA) core.Class {
 			}
 		}
 	}
-	cl.NonTrivial = dup > 0 || unknown > 0 || failed > 0
+	cl.NonTrivial = dup > 0 || unknown > 0 || failed > 0 || sched != ""
 	b := func(n int) int {
 		if n > 2 {
 			return 2
@@ -1266,10 +1660,13 @@ func classifyA(c CaseA) core.Class {
 	}
 	sort.Strings(ks)
 	cl.Fingerprint = fmt.Sprintf("dup=%d|unk=%d|fail=%d|httprm=%d|stale=%d|emptyfield=%d|inflightrm=%d|overlap=%d|relatednames=%d|sharedep=%d|kinds=%s", b(dup), b(unknown), b(failed), b(httpRm), b(stale), b(unusual), b(inflight), b(overlap), b(related), b(sharedEp), strings.Join(ks, "+"))
+	if sched != "" {
+		cl.Fingerprint += "|schedule=" + sched
+	}
 	return cl
 }
 
-const ruleA = "histories of operator Listener Add/Edit/Remove packages (client-shaped Info, via EventAppend+DispatchEvent as handleRequest does) over names {a,b,c} x kinds {HTTP on a fresh loopback port / on a port held by the harness / on the port of a running HTTP listener, SMB, External, service-defined kind registered by a real websocket service connection answering ok/error/not at all}, existing and unknown names included, edits incl. a stale HTTP edit dialog; after every step: names in ts.Listeners pairwise distinct; for built-in kinds names(ts.Listeners)==names(TS_Listeners rows)==listener table a new operator ends up with after the replay of ts.EventsList (folded as the client does); added name present with the right kind, duplicate add changes nothing, removed name gone; running HTTP listener serves a request carrying its own UA/URI/headers; after an edit old-config / new-config / foreign requests over real TCP get 200/404 as the NEW configuration demands; a removed HTTP listener refuses TCP connects. Non-trivial: a duplicate or unknown name, or a failed start (busy port / service script reports error or stays silent); distinct = (dup, unknown, failed, http removals, stale edits: each 0/1/2+; set of kinds added)"
+const ruleA = "histories of operator Listener Add/Edit/Remove packages (client-shaped Info, via EventAppend+DispatchEvent as handleRequest does) over names {a,b,c} x kinds {HTTP on a fresh loopback port / on a port held by the harness / on the port of a running HTTP listener, SMB, External, service-defined kind registered by a real websocket service connection answering ok/error/not at all}, existing and unknown names included, edits incl. a stale HTTP edit dialog; after every step: names in ts.Listeners pairwise distinct; for built-in kinds names(ts.Listeners)==names(TS_Listeners rows)==listener table a new operator ends up with after the replay of ts.EventsList (folded as the client does); added name present with the right kind, duplicate add changes nothing, removed name gone; running HTTP listener serves a request carrying its own UA/URI/headers; after an edit old-config / new-config / foreign requests over real TCP get 200/404 as the NEW configuration demands; a removed HTTP listener refuses TCP connects; every port the history handed to an HTTP add (or the kernel chose for one) on which the teamserver process accepts TCP connections belongs to an HTTP listener that is in ts.Listeners (no server keeps accepting that is neither listed, persisted nor advertised). Non-trivial: a duplicate or unknown name, or a failed start (busy port / service script reports error or stays silent); distinct = (dup, unknown, failed, http removals, stale edits: each 0/1/2+; set of kinds added)"
 
 var assumptionsA = []string{
 	"operator packages are dispatched without a connected operator socket: replies to 'the user' and broadcasts are no-ops; the advertised set is read from ts.EventsList, which is exactly what SendAllPackagesToNewClient sends",
